@@ -28,9 +28,7 @@ import (
 func (h *vfE2H) privateNSQD(dir string, mut func(*Options)) *NSQD {
 	opts := NewOptions()
 	opts.Logger = vfE2NopLogger{}
-	opts.TCPAddress = "127.0.0.1:0"
-	opts.HTTPAddress = "127.0.0.1:0"
-	opts.HTTPSAddress = "127.0.0.1:0"
+	opts.TCPAddress, opts.HTTPAddress, opts.HTTPSAddress = vfLoop3()
 	opts.DataPath = dir
 	opts.ClientTimeout = 20 * time.Minute
 	opts.MaxHeartbeatInterval = 20 * time.Minute
